@@ -12,7 +12,8 @@ PS = B + "PlayerState::"
 
 def subtrees(t):
     if isinstance(t, tuple):
-        yield t
+        if t and isinstance(t[0], str):
+            yield t
         for x in t:
             if isinstance(x, tuple):
                 for y in subtrees(x):
@@ -197,13 +198,102 @@ def r2_tables(ctx):
     wr = ctx.fn(rid, B + "<Fen as From<&Bitboard>>::from")
     wcfg, wex = Cfg(wr), Exprs(wr)
     writer_c = {}
+    writer_extra = {}
+
+    def w_value_and_guards(v, depth=0):
+        trees = [v]
+        if v[0] == "local" and depth < 3:
+            for dfn in wex.defs.get(v[1], ()):
+                if dfn[0] == "stmt":
+                    trees += w_value_and_guards(wex.rvalue(dfn[3]), depth + 1)
+                    for (a, sb) in wcfg.control_deps_transitive(dfn[1]):
+                        sw = wr["blocks"][a]["term"]
+                        if sw["k"] == "switch":
+                            trees.append(wex.operand(sw["discr"]))
+                elif dfn[0] == "call":
+                    t_ = dfn[3]
+                    trees.append(("call", t_["callee"].get("key") or "?", tuple(wex.operand(a) for a in t_["args"]), ""))
+        return trees
+
+    def closure_mask_roles(ck):
+        """{parameter index of a mask: accessor name} for a closure testing `accessor(player) & mask`"""
+        g = prog.fns.get(ck)
+        out = {}
+        if g is None:
+            return out
+        gex = Exprs(g)
+        for b in g["blocks"]:
+            for st in b["stmts"]:
+                if st["rv"]["op"] == "bin" and st["rv"]["bop"] == "BitAnd":
+                    a0, a1 = gex.operand(st["rv"]["a"][0]), gex.operand(st["rv"]["a"][1])
+                    for acc, msk in ((a0, a1), (a1, a0)):
+                        if acc[0] == "call" and acc[1].startswith(PS) and msk[0] == "param":
+                            out[msk[1]] = acc[1][len(PS):]
+        return out
+
+    def player_of(t):
+        while t[0] in ("&", "*"):
+            t = t[1]
+        fl = [y[2] for y in leaves(t) if y[0] == "f" and y[2] in ("white", "black")]
+        if t[0] == "f" and t[2] in ("white", "black"):
+            return t[2]
+        return fl[-1] if fl else None
+
     for b in sorted(wcfg.reach):
         for s in wr["blocks"][b]["stmts"]:
             rv = s["rv"]
             if rv["op"] == "agg" and rv["kind"] == "tuple" and len(rv["a"]) == 2 and rv["a"][0].get("k") == "const" and rv["a"][0].get("ty") == "char":
-                fl = wex.operand(rv["a"][1])
-                if fl[0] == "f" and fl[2].endswith("_castle") and fl[1][0] == "f":
-                    writer_c[(fl[1][2], fl[2])] = rv["a"][0]["v"]
+                trees = w_value_and_guards(wex.operand(rv["a"][1]))
+                flags = sorted({(x[1][2], x[2]) for t_ in trees for x in leaves(t_) if x[0] == "f" and x[2].endswith("_castle") and x[1][0] == "f"})
+                if len(flags) != 1:
+                    continue
+                writer_c[flags[0]] = rv["a"][0]["v"]
+                extra = []
+                for t_ in trees:
+                    for sub in subtrees(t_):
+                        if sub[0] == "bin" and sub[1] == "BitAnd":
+                            acc = [x for x in (sub[2], sub[3]) if x[0] == "call" and x[1].startswith(PS)]
+                            msk = [x for x in (sub[2], sub[3]) if x[0] == "c" and isinstance(x[1], int)]
+                            if len(acc) == 1 and len(msk) == 1:
+                                extra.append((acc[0][1][len(PS):], player_of(acc[0][2][0]), msk[0][1]))
+                        if sub[0] in ("call", "calli"):
+                            args = sub[2]
+                            clos = [a for a in args if a[0] in ("agg", "&") and "closure" in show(a)[:200]]
+                            ck = None
+                            for a in args:
+                                a2 = a
+                                while a2[0] in ("&", "*"):
+                                    a2 = a2[1]
+                                if a2[0] == "agg" and a2[1] == "closure":
+                                    ck = a2[2]
+                            if ck is None and sub[0] == "call" and "{closure" in sub[1]:
+                                ck = sub[1]
+                            if ck:
+                                roles = closure_mask_roles(ck)
+                                # closure parameters: 1 = the closure itself, then the call arguments (possibly as one tuple)
+                                flat = []
+                                for a in args:
+                                    if a[0] == "agg" and a[1] == "tuple":
+                                        flat += list(a[3])
+                                    else:
+                                        flat.append(a)
+                                flat = [a for a in flat if not (a[0] in ("agg", "&") and "closure" in show(a)[:80])]
+                                pl = player_of(flat[0]) if flat else None
+                                for pi, accn in roles.items():
+                                    idx = pi - 2
+                                    if 0 <= idx < len(flat) and flat[idx][0] == "c" and isinstance(flat[idx][1], int):
+                                        extra.append((accn, pl, flat[idx][1]))
+                writer_extra[flags[0]] = sorted(set(extra), key=str)
+    for (owner, fld), extra in sorted(writer_extra.items(), key=str):
+        if not extra:
+            continue
+        row = 7 if owner == "white" else 0
+        allowed = {("kings", owner, home_mask(4, row)), ("rooks", owner, home_mask(7 if fld.startswith("king") else 0, row))}
+        bad = [e for e in extra if e not in allowed]
+        ctx.ob(rid, "writer|castling-right-extra-conditions|%s.%s" % (owner, fld), not bad,
+               "" if not bad else "the writer prints the letter for %s.%s only if %s - for a legal position with that right the king stands on e%d and the rook on %s%d, so a right the position holds is not written" % (
+                   owner, fld, ["%s(%s) & %#x != 0" % e for e in bad], 1 if owner == "white" else 8, "h" if fld.startswith("king") else "a", 1 if owner == "white" else 8),
+               ctx.where(wr), sample={"conditions": ["%s(%s) & %#x" % e for e in extra]})
     want = {("white", "king_side_castle"): "K", ("white", "queen_side_castle"): "Q", ("black", "king_side_castle"): "k", ("black", "queen_side_castle"): "q"}
     ok = reader_c == writer_c == want
     ctx.ob(rid, "castling-letters", ok, "" if ok else "castling letters: reader %s, writer %s" % (reader_c, writer_c), ctx.where(rd), sample={"reader": {"%s.%s" % k: v for k, v in reader_c.items()}, "writer": {"%s.%s" % k: v for k, v in writer_c.items()}})
@@ -456,3 +546,61 @@ def run(ctx):
     r3_squares(ctx)
     r4_defaults(ctx)
     r5_rejections(ctx)
+
+
+def r6_en_passant_reader(ctx):
+    """every one of the 16 possible e.p. target squares is decoded to its square"""
+    rid = "C12.R6"
+    ctx.rule(rid, "the e.p. field reader maps `-` to NO_SQUARE and every target a3..h3, a6..h6 to that square (shift = file + 8 * row): either through the general square-text helper (checked by R3) on every non-`-` path, or through a literal table that contains all 16 targets with the right values", floor=2)
+    from .c15_struct import str_match_arms, STR_EQ
+    prog = ctx.prog
+    f = ctx.fn(rid, B + "<Fen as FenParseExt>::parse_en_passant_square_shift")
+    cfg, ex = Cfg(f), Exprs(f)
+    NO_SQUARE = prog.const_value(B + "constants::NO_SQUARE")
+    arms = str_match_arms(f, cfg, ex)
+    table = {}
+    for kw, eqb, head, other in arms:
+        # value returned in the arm
+        val = None
+        for x in sorted(cfg.reach):
+            if x == head or cfg.dominates(head, x):
+                for s in f["blocks"][x]["stmts"]:
+                    if s["dst"] is not None and s["dst"]["l"] == 0 and not s["dst"]["p"]:
+                        tv = ex.rvalue(s["rv"])
+                        try:
+                            val = fold(tv)
+                        except Unfoldable:
+                            val = show(tv)
+                        break
+                if val is not None:
+                    break
+        table[kw] = val
+    helper_calls = [b for b in sorted(cfg.reach) if f["blocks"][b]["term"]["k"] == "call" and (f["blocks"][b]["term"]["callee"].get("key") or "").endswith("square_shift_from_fen_unchecked")]
+    targets = {"%s%d" % (chr(ord("a") + fl), rk): fl + 8 * (8 - rk) for fl in range(8) for rk in (3, 6)}
+    literal_targets = {k: v for k, v in table.items() if k != "-"}
+    if literal_targets:
+        missing = sorted(set(targets) - set(literal_targets))
+        wrong = sorted((k, v) for k, v in literal_targets.items() if k in targets and v != targets[k])
+        # targets not in the table fall to the helper only if the helper is still called on the fall-through path
+        if missing and helper_calls:
+            missing = []
+        ok = not missing and not wrong
+        ctx.ob(rid, "literal-table|all-16-targets", ok,
+               "" if ok else "the e.p. reader's literal table %s%s: a legal FEN with that e.p. target is decoded without (or with a wrong) e.p. square" % (
+                   ("lacks %s" % missing) if missing else "", (" maps %s" % wrong) if wrong else ""),
+               ctx.where(f), sample={"targets_in_table": len(literal_targets)})
+    else:
+        ok = len(helper_calls) >= 1
+        ctx.ob(rid, "general-helper", ok, "" if ok else "the e.p. reader neither calls square_shift_from_fen_unchecked nor holds a literal table", ctx.where(f), sample={"helper_calls": len(helper_calls)})
+    returns_no_square = any(s_["dst"] is not None and s_["dst"]["l"] == 0 and not s_["dst"]["p"] and s_["rv"]["op"] == "use" and s_["rv"]["a"][0].get("k") == "const" and s_["rv"]["a"][0].get("v") == NO_SQUARE
+                            for b_ in f["blocks"] if not b_["cleanup"] for s_ in b_["stmts"])
+    ok = table.get("-") == NO_SQUARE or ("-" not in table and returns_no_square)
+    ctx.ob(rid, "dash-is-no-square", bool(ok), "" if ok else "`-` is decoded to %s, not NO_SQUARE" % table.get("-"), ctx.where(f), sample={"dash": table.get("-")})
+
+
+_run_before_r6 = run
+
+
+def run(ctx):
+    _run_before_r6(ctx)
+    r6_en_passant_reader(ctx)
